@@ -356,6 +356,89 @@ def re (fmtS tdesc hexdoc obs : String) : Verdict :=
     { model, spec }
   | _, _ => { model := "bad-arg" }
 
+/-- `c02.hist`: a history of `Marshal` / `Encoder.Encode` calls whose results are all held and examined after the last
+call. In the model `Marshal` is a pure function of its argument — `encode cx false [] (some v) : Res Bytes`, a fresh
+byte string, with no state between calls — so the model's observation of a history is the list of the observations of
+its steps, each held result unchanged (`held=1`), each argument unchanged (`arg=1`). The oracle is the property's
+"decoding the encoding of v yields v" for EVERY held encoding (decoded after all the calls), plus: no held result
+and no argument is modified by a later call. `@j` in a value is a carrier built from the bytes step `j` returned. -/
+def hist (_api how : String) (steps : List (String × String)) (obs : String) : Verdict :=
+  let stepObs := obs.splitOn " ; "
+  let rec go (i : Nat) (steps : List (String × String)) (sobs : List String) (encs : List (Option Bytes))
+      (bad : List Bool) (models : List String) (spec : Option String) (markers : List String) : Verdict :=
+    match steps, sobs with
+    | (t, v) :: steps', o :: sobs' =>
+      -- carriers built from earlier results
+      let v' := (List.range i).foldl (fun (acc : String) j =>
+        let txt := match encs[j]? with
+          | some (some b) => hexOfBytes (b.take 1) ++ ":" ++ hexOfBytes (b.drop 3)
+          | _ => "00:"
+        acc.replace s!"@{j}" txt) v
+      let toks := o.splitOn " "
+      let o' := " ".intercalate (toks.filter fun tk => !(tk.startsWith "held=") && !(tk.startsWith "arg="))
+      let r := rt "file" how "-" t v' o'
+      let encTok := (kv toks "enc").getD ""
+      let enc : Option Bytes := if encTok.startsWith "ok:" then parseHex (encTok.drop 3).toString else none
+      let model := if encTok.startsWith "ok:" then r.model.replace " chg=0 " " chg=0 held=1 arg=1 " else r.model
+      -- a carrier built from a result that is itself no document (the zero RawMessage / dynbt.Value are not values,
+      -- a failed step) carries no document: only "returns, modifies nothing" is demanded of such a step
+      let refsBad := (List.range i).any fun j => (bad[j]?).getD true && (v.splitOn s!"@{j}").length > 1
+      let looseStep := match parseType t.toList with
+        | some (ty, []) => (match parseVal ty v'.toList with
+          | some (x, []) => loose x
+          | _ => true)
+        | _ => true
+      let rspec := match r.spec with
+        | some why => if refsBad && !((why.splitOn "panicked").length > 1 || (why.splitOn "did not return").length > 1
+            || (why.splitOn "modified").length > 1) then none else some why
+        | none => none
+      let stepSpec : Option String :=
+        match rspec with
+        | some why => some why
+        | none =>
+          if (kv toks "held") == some "0" then some "the bytes an earlier call returned were overwritten by a later call"
+          else if (kv toks "arg") == some "0" then some "a later call modified the argument of an earlier one"
+          else none
+      let spec' := match spec, stepSpec with
+        | some w, _ => some w
+        | none, some w => some s!"step {i}: {w}"
+        | none, none => none
+      if encTok == "panic" || encTok == "hang" then
+        { model := " ; ".intercalate (models ++ [r.model]), spec := spec', markers := markers ++ r.markers }
+      else go (i + 1) steps' sobs' (encs ++ [enc]) (bad ++ [looseStep || refsBad || enc.isNone]) (models ++ [model]) spec'
+        (markers ++ r.markers)
+    | [], [] => { model := " ; ".intercalate models, spec, markers := markers.eraseDups }
+    | _, _ => { model := " ; ".intercalate (models ++ ["bad-history"]), spec, markers }
+  go 0 steps stepObs [] [] [] none []
+
+def pairUp : List String → List (String × String)
+  | a :: b :: rest => (a, b) :: pairUp rest
+  | _ => []
+
+/-- `c02.odd`: values of types OUTSIDE the universe of the model (`GoType` is a finite tree with string-keyed maps):
+recursive pointer types, maps with other keys. There is no model evaluation here; the table says what the repaired
+encoder does — a nil pointer of a type whose zero value contains it again has no finite encoding (error; it used to
+overflow the stack), a map key that is neither a string nor a `fmt.Stringer` names no tag (error; every entry used
+to be called "<int Value>") — and the oracle is the property's: `Encode` returns, and what it wrote decodes to the
+value. -/
+def odd (variant obs : String) : Verdict :=
+  let toks := obs.splitOn " "
+  let expect : Option String := match variant with
+    | "rec-zero" | "rec-list" | "rec-nilptr" | "rec-slice" | "rec-map" | "rec-mutual" | "map-int" => some "enc=err"
+    | "rec-omitempty" => some "enc=ok:0a000003000156000000010a00044e65787403000156000000020a00044e6578740300015600000003000000 dec=ok same=1"
+    | "rec-omitempty-nil" => some "enc=ok:0a0000030001560000000000 dec=ok same=1"
+    | "map-stringer" => some "enc=ok:0a0000030004312c2d320000000700"
+    | "map-empty-int" => some "enc=ok:0a000000"
+    | _ => none
+  let spec : Option String :=
+    if obs == "crash" then some "Encode killed the process (stack overflow)"
+    else if obs == "hang" then some "Encode did not return"
+    else if obs == "panic" then some "Encode panicked"
+    else if (kv toks "dec") == some "err" then some "the encoding of the value does not decode into its type"
+    else if (kv toks "same") == some "0" then some "decoded value differs from the encoded one"
+    else none
+  { model := expect.getD "bad-variant", spec }
+
 def handle (op : String) (args : List String) (obs : String) : Option Verdict :=
   match op, args with
   | "c02.tf", [t] => some (tf t)
@@ -365,6 +448,8 @@ def handle (op : String) (args : List String) (obs : String) : Option Verdict :=
   | "c02.dec2", [t, f, d1, d2] => some (dec2 t f d1 d2 obs)
   | "c02.fr", [a, t, doc] => some (fr a t doc obs)
   | "c02.fw", [how, t, v] => some (fw how t v obs)
+  | "c02.odd", [variant] => some (odd variant obs)
+  | "c02.hist", api :: how :: _n :: rest => some (hist api how (pairUp rest) obs)
   | _, _ => none
 
 end Driver.C02
